@@ -4,6 +4,12 @@ package sfnt
 
 import (
 	"bytes"
+	"time"
+
+	"seehuhn.de/go/postscript/type1"
+
+	"seehuhn.de/go/sfnt/cff"
+	"seehuhn.de/go/sfnt/head"
 
 	"seehuhn.de/go/sfnt/glyf"
 	"seehuhn.de/go/sfnt/glyph"
@@ -109,6 +115,68 @@ func VerifH_C02_fontread() {
 	}
 	for i := 0; i < width; i++ {
 		data[pos+i] = verifU8("b")
+	}
+	verifLoopCut(verifParam("loopcut", 12))
+	g, err := Read(bytes.NewReader(data))
+	if err != nil {
+		verifReach("rejected")
+		return
+	}
+	verifReach("accepted")
+	verifUseFont(g)
+}
+
+// verifCFFFont16: a simple (not CID-keyed) OpenType/CFF font with 4 glyphs and a format 12 cmap.
+func verifCFFFont16() *Font {
+	o := &cff.Outlines{Private: []*type1.PrivateDict{{BlueScale: 0.039625, BlueShift: 7, BlueFuzz: 1}}, FDSelect: func(glyph.ID) int { return 0 }}
+	for i, name := range []string{".notdef", "A", "B", "x"} {
+		g := cff.NewGlyph(name, float64(100*(i+1)))
+		if i > 0 {
+			g.MoveTo(0, 0)
+			g.LineTo(float64(10*i), 0)
+			g.LineTo(0, 20)
+		}
+		o.Glyphs = append(o.Glyphs, g)
+	}
+	o.Encoding = cff.StandardEncoding(o.Glyphs)
+	f := &Font{FamilyName: "Test", UnitsPerEm: 1000, Version: head.Version(0x10000), Ascent: 800, Descent: -200, Outlines: o}
+	f.CreationTime = time.Unix(1000000000, 0)
+	f.ModificationTime = time.Unix(1100000000, 0)
+	f.CMapTable = verifCmap12([]rune{'A', 'B', 'x'}, []glyph.ID{1, 2, 3})
+	return f
+}
+
+// VerifH_C02_glyphcounts: the glyph-count reconciliation of sfnt.Read: a valid TrueType or CFF font in which
+// one table is missing (maxp, hmtx, hhea, post, OS/2 or none; its directory tag is renamed) and the counts the
+// remaining tables announce (maxp.numGlyphs, hhea.numberOfHMetrics) are arbitrary 16-bit words: an error, or
+// a font that survives every accessor.
+func VerifH_C02_glyphcounts() {
+	missing := []string{"", "maxp", "hmtx", "hhea", "post", "OS/2"}[verifChoose("missing", 6)]
+	var f *Font
+	if verifChoose("kind", 2) == 0 {
+		f = verifIslandFont16()
+	} else {
+		f = verifCFFFont16()
+	}
+	w := &bytes.Buffer{}
+	_, err := f.Write(w)
+	verifAssume(err == nil)
+	data := w.Bytes()
+	numTables := int(data[4])<<8 | int(data[5])
+	for t := 0; t < numTables; t++ {
+		rec := data[12+16*t:]
+		off := int(rec[8])<<24 | int(rec[9])<<16 | int(rec[10])<<8 | int(rec[11])
+		tag := string(rec[:4])
+		if tag == missing {
+			rec[0], rec[1], rec[2], rec[3] = 'z', 'z', 'z', byte('a'+t) // the table is not found under its name
+			continue
+		}
+		switch tag {
+		case "maxp":
+			data[off+4], data[off+5] = verifU8("numGlyphs"), verifU8("numGlyphs")
+		case "hhea":
+			data[off+34], data[off+35] = verifU8("numberOfHMetrics"), verifU8("numberOfHMetrics")
+		}
 	}
 	verifLoopCut(verifParam("loopcut", 12))
 	g, err := Read(bytes.NewReader(data))
